@@ -5,5 +5,6 @@ CONSTANTS
   MaxOpsWf = 2
   MaxOpsMal = 1
   EMIT = FALSE
-INVARIANTS ModelOK RhoExact NoUnwrapPanic Bounded Emit
+  FIXED = FALSE
+INVARIANTS ModelOK RhoExact NoUnwrapPanic Bounded FixedTerminates Emit
 CHECK_DEADLOCK FALSE
